@@ -294,7 +294,7 @@ class Runner:
         info = {"steps": sched.step, "switches": sched.switches, "hot_points": sched.hot_points,
                 "digest": "%016x" % (sched.digest & 0xFFFFFFFFFFFFFFFF), "switch_digest": "%016x" % (sched.switch_digest & 0xFFFFFFFFFFFFFFFF),
                 "lock_acquire": sched.stats.get("lock_acquire", 0), "lock_blocked": sched.stats.get("lock_blocked", 0),
-                "lock_timeout": sched.stats.get("lock_timeout", 0), "sleep": sched.stats.get("sleep", 0), "parked": sched.stats.get("parked", 0)}
+                "lock_timeout": sched.stats.get("lock_timeout", 0), "sleep": sched.stats.get("sleep", 0), "parked": sched.stats.get("parked", 0), "foreign_points": sched.foreign_points}
         res = {"result": "ok", "info": info, "decisions": [list(d) for d in sched.decisions], "hist": hist}
         if cold and sched.deadlock is None:
             try:
@@ -626,7 +626,7 @@ def worker(argv):
     if os.environ.get("VERIF_WARM") == "1":
         warmup(runner)         # default is cold: every forked run starts from a process that has imported the package but never used it
     agg = {"runs": 0, "skipped": 0, "steps": 0, "switches": 0, "hot_points": 0, "overlaps": 0, "epilogue_recompiles": 0,
-           "lock_acquire": 0, "lock_blocked": 0, "lock_timeout": 0, "sleep": 0, "parked": 0, "violations": 0, "ops": 0}
+           "lock_acquire": 0, "lock_blocked": 0, "lock_timeout": 0, "sleep": 0, "parked": 0, "foreign_points": 0, "violations": 0, "ops": 0}
     per_policy = {}
     per_threads = {}
     interleavings = set()
@@ -647,7 +647,7 @@ def worker(argv):
                 continue
             agg["runs"] += 1
             info = res["info"]
-            for k in ("steps", "switches", "hot_points", "lock_acquire", "lock_blocked", "lock_timeout", "sleep", "parked"):
+            for k in ("steps", "switches", "hot_points", "lock_acquire", "lock_blocked", "lock_timeout", "sleep", "parked", "foreign_points"):
                 agg[k] += info[k]
             agg["overlaps"] += info.get("overlaps", 0)
             agg["epilogue_recompiles"] += info.get("epilogue", 0)
@@ -768,6 +768,7 @@ def master(tier, seed):
         "sim_lock_timeouts_fired": agg.get("lock_timeout", 0),
         "sim_sleep_yields": agg.get("sleep", 0),
         "delay_injections_fired": agg.get("parked", 0),
+        "yield_points_in_non_package_python_code": agg.get("foreign_points", 0),
         "skipped_scenarios": agg.get("skipped", 0),
         "runs_per_policy": per_policy,
         "runs_per_thread_count": per_threads,
